@@ -31,6 +31,8 @@ func registry() map[string]PropSpec {
 				What: "Replace from inside a Range callback: no revisits, callbacks see live entries, final state equals model"},
 			{Pkg: "ordered", Name: "c05_history", Quick: map[string]int{"ops": 3}, Thorough: map[string]int{"ops": 5}, Unwind: [2]int{16, 24},
 				What: "bounded histories through the public API from NewMap/new(Map): every reached state satisfies RI and all observers agree with the model"},
+			{Pkg: "ordered", Name: "tv_stdlib", Quick: map[string]int{}, Unwind: [2]int{32, 32},
+				What: "translator validation of the standard-library models (strings, strconv, sort, slices, bytes.Buffer, fmt, errors, sync): each modelled function on symbolic strings of <= 3 bytes against a plain loop interpreted instruction by instruction"},
 			{Pkg: "ordered", Name: "c05_api_history", Quick: map[string]int{"ops": 4}, Thorough: map[string]int{"ops": 6}, Unwind: [2]int{16, 24}, Budget: [2]int{120, 1500},
 				What: "bounded histories through the public API only (no unexported field is touched, so this harness survives a refactoring of the representation): after the history every observer and Equal agree with the model"},
 			{Pkg: "ordered", Name: "c05_nil", Quick: map[string]int{}, Unwind: [2]int{16, 16},
